@@ -100,13 +100,17 @@ def to_tsv(triples):
     return "\n".join(lines) + ("\n" if lines else "")
 
 
-def to_simple_turtle(triples, prefixes=None):
+def to_simple_turtle(triples, prefixes=None, bare_integers=False):
     """House-style Turtle: one statement per line, blanks around every token, full IRIs
-    unless a prefix applies (prefix -> namespace dict)."""
+    unless a prefix applies (prefix -> namespace dict).  bare_integers: xsd:integer literals are written in Turtle's
+    shorthand (-5, +3, 42) - the same literal, another spelling."""
+    import re as _re
     prefixes = prefixes or {}
     lines = ["@prefix %s: <%s> ." % (k, v) for k, v in prefixes.items()]
 
     def q(t):
+        if bare_integers and t[0] == "lit" and t[2] == XSD + "integer" and not t[3] and _re.fullmatch(r"[+-]?[0-9]+", t[1]):
+            return t[1]
         if t[0] == "iri":
             for k, v in prefixes.items():
                 if t[1].startswith(v):
